@@ -80,7 +80,11 @@ func (d *Datastore) Get(ctx context.Context, req *sdcpb.GetDataRequest, nCh chan
 	// convert sdcpb paths to a string list
 	paths := make([][]string, 0, len(req.GetPath()))
 	for _, p := range req.GetPath() {
-		paths = append(paths, utils.ToStrings(p, false, false))
+		cp, err := d.toCacheReadPath(ctx, p)
+		if err != nil {
+			return err
+		}
+		paths = append(paths, cp)
 	}
 
 	ctx, cancel := context.WithCancel(ctx)
@@ -100,6 +104,60 @@ func (d *Datastore) Get(ctx context.Context, req *sdcpb.GetDataRequest, nCh chan
 		return err
 	}
 	return nil
+}
+
+// toCacheReadPath converts the requested path into the path slice used to query the cache. The key values of a
+// list entry only form a prefix of the cache keys if all keys of the list are given (they are ordered by
+// key name, see utils.ToStrings()), otherwise the path slice ends at the list itself.
+func (d *Datastore) toCacheReadPath(ctx context.Context, p *sdcpb.Path) ([]string, error) {
+	result := make([]string, 0, len(p.GetElem()))
+	for i, pe := range p.GetElem() {
+		result = append(result, pe.GetName())
+		schemaPath := &sdcpb.Path{Elem: make([]*sdcpb.PathElem, 0, i+1)}
+		for _, e := range p.GetElem()[:i+1] {
+			schemaPath.Elem = append(schemaPath.Elem, &sdcpb.PathElem{Name: e.GetName()})
+		}
+		rsp, err := d.schemaClient.GetSchemaSdcpbPath(ctx, schemaPath)
+		if err != nil {
+			return nil, err
+		}
+		schemaKeys := rsp.GetSchema().GetContainer().GetKeys()
+		if len(schemaKeys) == 0 {
+			continue
+		}
+		for _, k := range schemaKeys {
+			if _, ok := pe.GetKey()[k.GetName()]; !ok {
+				// not all keys are given, the remainder is taken care of by filtering the result
+				return result, nil
+			}
+		}
+		result = append(result, utils.ToStrings(&sdcpb.Path{Elem: []*sdcpb.PathElem{pe}}, false, false)[1:]...)
+	}
+	return result, nil
+}
+
+// pathIsRequested returns true if the given path is located at or below one of the requested paths.
+// Keys that are not given in a requested path match every value.
+func pathIsRequested(requested []*sdcpb.Path, p *sdcpb.Path) bool {
+NEXT:
+	for _, r := range requested {
+		if len(r.GetElem()) > len(p.GetElem()) {
+			continue
+		}
+		for i, re := range r.GetElem() {
+			pe := p.GetElem()[i]
+			if re.GetName() != pe.GetName() {
+				continue NEXT
+			}
+			for k, v := range re.GetKey() {
+				if pe.GetKey()[k] != v {
+					continue NEXT
+				}
+			}
+		}
+		return true
+	}
+	return false
 }
 
 func (d *Datastore) handleGetDataUpdatesSTRING(ctx context.Context, name string, req *sdcpb.GetDataRequest, paths [][]string, out chan *sdcpb.GetDataResponse) error {
@@ -134,6 +192,11 @@ NEXT_STORE:
 					if scp.GetElem()[0].GetName() == "" {
 						continue
 					}
+				}
+				// the cache matches the read paths as plain prefixes, make sure
+				// the entry is really located at or below one of the requested paths
+				if !pathIsRequested(req.GetPath(), scp) {
+					continue
 				}
 				tv, err := upd.Value()
 				if err != nil {
@@ -203,6 +266,11 @@ func (d *Datastore) handleGetDataUpdatesJSON(ctx context.Context, name string, r
 					if scp.GetElem()[0].GetName() == "" {
 						continue
 					}
+				}
+				// the cache matches the read paths as plain prefixes, make sure
+				// the entry is really located at or below one of the requested paths
+				if !pathIsRequested(req.GetPath(), scp) {
+					continue
 				}
 				root.AddCacheUpdateRecursive(ctx, upd, flagsExisting)
 			}
@@ -281,6 +349,11 @@ NEXT_STORE:
 					if scp.GetElem()[0].GetName() == "" {
 						continue
 					}
+				}
+				// the cache matches the read paths as plain prefixes, make sure
+				// the entry is really located at or below one of the requested paths
+				if !pathIsRequested(req.GetPath(), scp) {
+					continue
 				}
 				tv, err := upd.Value()
 				if err != nil {
